@@ -1250,7 +1250,37 @@ class Program:
             return all(isinstance(x, (ast.Name, ast.Attribute, ast.Constant, ast.Compare, ast.BoolOp, ast.UnaryOp, ast.expr_context,
                                       ast.cmpop, ast.boolop, ast.unaryop)) for x in ast.walk(e))
 
+        def const_dict_written(name: str) -> bool:
+            for m_ in self.modules.values():
+                for x in ast.walk(m_.tree):
+                    if isinstance(x, ast.Subscript) and isinstance(x.ctx, (ast.Store, ast.Del)) and \
+                            getattr(x.value, 'id', getattr(x.value, 'attr', None)) == name:
+                        return True
+                    if isinstance(x, ast.Call) and isinstance(x.func, ast.Attribute) and x.func.attr in (
+                            'update', 'pop', 'popitem', 'clear', 'setdefault', '__setitem__', '__delitem__') and \
+                            getattr(x.func.value, 'id', getattr(x.func.value, 'attr', None)) == name:
+                        return True
+            return False
+
         def literal_elems(fnode, it: ast.expr, mod_=None) -> Optional[List[ast.expr]]:
+            # a module-level dict display of constants that nothing writes: `T.items()` / `T.keys()` / `T.values()` / `T`
+            view = None
+            base = it
+            if isinstance(it, ast.Call) and isinstance(it.func, ast.Attribute) and it.func.attr in ('items', 'keys', 'values') and \
+                    not it.args and not it.keywords:
+                view, base = it.func.attr, it.func.value
+            if isinstance(base, ast.Name) and mod_ is not None and (view is not None) and not any(
+                    isinstance(x, ast.Name) and x.id == base.id and isinstance(x.ctx, ast.Store) for x in ast.walk(fnode)) and \
+                    base.id not in [a.arg for a in fnode.args.args + fnode.args.kwonlyargs]:
+                sym = self.resolve_name(mod_, base.id)
+                if isinstance(sym, tuple) and sym[0] == 'const' and isinstance(sym[1], ast.Dict) and 1 <= len(sym[1].keys) <= 8 and \
+                        all(isinstance(k_, ast.Constant) for k_ in sym[1].keys) and sym[2] is mod_ and not const_dict_written(base.id):
+                    d_ = sym[1]
+                    if view == 'keys':
+                        return list(d_.keys)
+                    if view == 'values':
+                        return list(d_.values)
+                    return [ast.Tuple(elts=[k_, v_], ctx=ast.Load()) for k_, v_ in zip(d_.keys, d_.values)]
             if isinstance(it, ast.Name) and mod_ is not None and not any(
                     isinstance(x, ast.Name) and x.id == it.id and isinstance(x.ctx, ast.Store) for x in ast.walk(fnode)) and \
                     it.id not in [a.arg for a in fnode.args.args + fnode.args.kwonlyargs]:
